@@ -151,6 +151,12 @@ pub fn c05_c06(d: &Digest, s: usize, out: &mut Vec<Violation>) {
             let popped = d.ev[c.inv..ret].iter().any(|e| e.tid == c.tid && matches!(&e.k, K::ChRecv { chan, .. } if *chan == dch));
             let sent = d.ev[c.inv..ret].iter().any(|e| e.tid == c.tid && matches!(&e.k, K::ChSend { chan, .. } if *chan == dch));
             if let OpK::Dispatch { act, .. } = c.op {
+                // DropOldest discards the oldest "to admit the new one": the new action always
+                // enters the queue (producers are serialised, the reducer only makes room)
+                if sd.model.policy == Policy::DropOldest && !sent && c.thr < MW_THR {
+                    v(out, "C06", "new-action-not-admitted", format!("store {s} (DropOldest): dispatch of {act} returned without the action having entered the queue"));
+                    break;
+                }
                 if (popped || !sent) && !saw_full {
                     v(out, "C06", "discarded-while-room", format!("store {s} ({:?}): dispatch of {act} discarded something although the queue never refused the new item as full", sd.model.policy));
                     break;
